@@ -575,6 +575,12 @@ def _c03():
             L.append(leg("%s-m%d" % (k, m), "c03_rt", (2, 3) if k not in ("graph", "pipeline", "pipeline_obj", "foreach") else (1, 2), {"kind": k, "mask": m}, what="%s; throwing invocations mask %d" % (what, m)))
     for ct in (1, 2, 3, 5):
         L.append(leg("foreach_input-c%d" % ct, "c03_rt", (1, 2), {"kind": "foreach_input", "mask": 0, "copythrow": ct}, what="parallel_for_each over input iterators (items are copied into blocks by the library): the %d. item copy throws; the call must rethrow it and destroy every copy" % ct))
+    for part in (0, 1, 2):
+        for m in (1, 2):
+            L.append(leg("pfor_split-p%d-m%d" % (part, m), "c03_rt", (1, 2), {"kind": "pfor_split", "part": part, "mask": m}, what="parallel_for (partitioner %d): invocation mask %d of the Range's splitting constructor throws" % (part, m), weight=0.5))
+    for part in (0, 1):
+        for m in (2, 4):
+            L.append(leg("pfor_bodycopy-p%d-m%d" % (part, m), "c03_rt", (1, 2), {"kind": "pfor_bodycopy", "part": part, "mask": m}, what="parallel_for (partitioner %d): invocation mask %d of the Body's copy constructor throws" % (part, m), weight=0.5))
     L.append(leg("same_arena-m0-pfor", "c03_rt", (2, 3), {"kind": "same_arena", "mask": 0, "mask2": 2}, what="same-arena execute inside parallel_for bodies, the second body throws"))
     return L
 PROPS["C03"] = {
